@@ -20,7 +20,7 @@ func init() {
 		Explanation: "Decides the dispatch clauses by abstract interpretation of listIn / listOverlap over the dynamic types of their two operands (type tests are resolved by the assumed types, every other branch is explored both ways): (R-OVSYM) the outcome matrix of overlap — (type of operand 1, type of operand 2) -> {value, error, value only if the []string operand is empty} — is symmetric under swapping the operands, same-typed lists give a value, anything else an error: 'overlap is symmetric' and 'the empty list literal behaves as an empty list of either type on either side' both fail if (A,B) is handled and (B,A) is an error; " +
 			"(R-INSETS) the matrix of `in`: string probe accepts []string and map[string]struct{}, int64 probe accepts []int64, map[int64]struct{} and the empty []string literal, every other combination is an error, never false (pre-built sets accepted; mismatches are errors); (R-TYPEERR, R-ARITY as in C18, restricted to the two operators). " +
 			"(R-SETSHAPE) structural necessary conditions of the set semantics: every `true` is returned only under equality of an element of one operand with an element of the other (or a successful lookup in a set built from every element of one operand, probed with elements of the other), every loop involved ranges over a whole operand from index 0 in steps of 1, and `false` for same-typed lists is returned only at the exit of such a loop; the large-list path builds its set from one operand and probes with the other whichever is shorter. " +
-			"NOT decided: the set semantics as a value relation, and that the scan and the hashing path agree (values of list elements; the threshold constant changes nothing observable, so no constant rule is a necessary condition).",
+			"(R-INTBASE) every integer parse of the lexer/parser reads base 10, so a list element and a scalar probe with the same spelling denote the same number. NOT decided: the set semantics as a value relation, and that the scan and the hashing path agree (values of list elements; the threshold constant changes nothing observable, so no constant rule is a necessary condition).",
 		Run:       runC17,
 		Witnesses: c17Witnesses,
 	})
